@@ -70,6 +70,10 @@ pub struct ClientProg {
     /// pipelined client: send every request (with its content) before reading any reply
     #[serde(default)]
     pub pipeline: bool,
+    /// (request index, hex bytes): extra bytes placed INSIDE that request's frame, after the CBOR
+    /// item (the length prefix covers them). The frame is still well-formed: the item is complete.
+    #[serde(default)]
+    pub pad: Vec<(u32, String)>,
 }
 
 #[derive(Clone, Debug, Serialize, Deserialize)]
@@ -262,6 +266,7 @@ pub fn client_main(
     let mut send_failed = false;
     for (idx, req) in prog.reqs.iter().enumerate() {
         let resolve = |e: &Exp, path: &str, known: &BTreeMap<String, Option<Hash>>| -> Option<Hash> {
+            let path = &norm_path(path)[..];
             match e {
                 Exp::None => None,
                 Exp::Initial => init.get(path).map(|b| b3(b)),
@@ -328,6 +333,14 @@ pub fn client_main(
                 continue;
             }
         };
+        if let Some((_, hex)) = prog.pad.iter().find(|(i, _)| *i as usize == idx) {
+            if frame.len() >= 4 && !matches!(kind, OpKindH::Raw) {
+                let extra = unhex(hex);
+                let len = u32::from_be_bytes([frame[0], frame[1], frame[2], frame[3]]) + extra.len() as u32;
+                frame[..4].copy_from_slice(&len.to_be_bytes());
+                frame.extend(extra);
+            }
+        }
         let inv = now_seq();
         let mut op = HOp { client: me, idx, kind: kind.clone(), inv, resp: None, note: String::new() };
         let sent = out.send(&frame, &mut r).and_then(|()| out.send(&payload, &mut r));
@@ -381,16 +394,16 @@ pub fn client_main(
                     }
                     match (&kind, &rep) {
                         (OpKindH::Put { path, body, .. }, Reply::PutResult { committed, current }) => {
-                            known.insert(path.clone(), if *committed { Some(b3(body)) } else { *current });
+                            known.insert(norm_path(path), if *committed { Some(b3(body)) } else { *current });
                         }
                         (OpKindH::Delete { path, .. }, Reply::DeleteResult { deleted, current }) => {
-                            known.insert(path.clone(), if *deleted { None } else { *current });
+                            known.insert(norm_path(path), if *deleted { None } else { *current });
                         }
                         (OpKindH::Get { path }, Reply::Content { hash, .. }) => {
-                            known.insert(path.clone(), Some(*hash));
+                            known.insert(norm_path(path), Some(*hash));
                         }
                         (OpKindH::Get { path }, Reply::Error(_)) => {
-                            known.insert(path.clone(), None);
+                            known.insert(norm_path(path), None);
                         }
                         (OpKindH::List, Reply::Fingerprints(m)) => {
                             for k in known.keys().cloned().collect::<Vec<_>>() {
@@ -597,11 +610,23 @@ pub fn run_hub_in(sc: &HubSc, w: World, init: BTreeMap<String, Vec<u8>>, hook: O
     HubRun { out, logs, init, world0 }
 }
 
+/// The file a client path names: `.` and empty components do not count (`./f`, `d//f` and
+/// `d/./f` are spellings of `f` and `d/f`).
+pub fn norm_path(p: &str) -> String {
+    p.split('/').filter(|c| !c.is_empty() && *c != ".").collect::<Vec<_>>().join("/")
+}
+
+/// The hub's own directory `.copia/` (lock files): not a client-visible path. Only that
+/// component — a client file named `.copiaignore` is an ordinary file.
+pub fn is_hub_private(rel: &str) -> bool {
+    rel == ".copia" || rel.starts_with(".copia/")
+}
+
 /// Hub tree as clients can see it: no `.copia/`, no staging names.
 pub fn visible_tree(w: &World) -> Tree {
     tree_bytes(w, HUB, ROOT)
         .into_iter()
-        .filter(|(k, _)| !k.starts_with(".copia") && !is_staging(k))
+        .filter(|(k, _)| !is_hub_private(k) && !is_staging(k))
         .collect()
 }
 
@@ -647,7 +672,7 @@ fn apply_model(m: &mut Model, op: &HOp, relax: Relax) -> bool {
                 Reply::Fingerprints(got) => {
                     let got: BTreeMap<String, Hash> = got
                         .iter()
-                        .filter(|(k, _)| !is_staging(k) && !k.starts_with(".copia"))
+                        .filter(|(k, _)| !is_staging(k) && !is_hub_private(k))
                         .map(|(k, v)| (k.clone(), *v))
                         .collect();
                     got == want
@@ -656,6 +681,7 @@ fn apply_model(m: &mut Model, op: &HOp, relax: Relax) -> bool {
             }
         }
         OpKindH::Get { path } => {
+            let path = &norm_path(path);
             if relax == Relax::GetReplies {
                 return matches!(rep, Reply::Content { .. } | Reply::Error(_));
             }
@@ -666,6 +692,7 @@ fn apply_model(m: &mut Model, op: &HOp, relax: Relax) -> bool {
             }
         }
         OpKindH::Put { path, expected, body, declared, .. } => {
+            let path = &norm_path(path);
             if *declared != Declared::Valid {
                 // an invalid put changes nothing and is answered with an error (or nothing)
                 return matches!(rep, Reply::Error(_));
@@ -690,6 +717,7 @@ fn apply_model(m: &mut Model, op: &HOp, relax: Relax) -> bool {
             }
         }
         OpKindH::Delete { path, expected } => {
+            let path = &norm_path(path);
             let cur = m.get(path).map(|b| b3(b));
             if cur == *expected {
                 m.remove(path);
@@ -706,6 +734,7 @@ fn apply_model(m: &mut Model, op: &HOp, relax: Relax) -> bool {
 fn apply_effect(m: &mut Model, op: &HOp) -> bool {
     match &op.kind {
         OpKindH::Put { path, expected, body, declared, .. } => {
+            let path = &norm_path(path);
             if *declared != Declared::Valid || below_a_file(m, path) {
                 return true;
             }
@@ -723,6 +752,7 @@ fn apply_effect(m: &mut Model, op: &HOp) -> bool {
             true
         }
         OpKindH::Delete { path, expected } => {
+            let path = &norm_path(path);
             if m.get(path).map(|b| b3(b)) == *expected {
                 m.remove(path);
             }
@@ -847,7 +877,7 @@ impl<'a> Wgl<'a> {
                 // a listing taken while a file could not be read may omit it ("skipped, never
                 // guessed"); what it does list must be the model's
                 match &op.resp {
-                    Some((_, Reply::Fingerprints(got))) => got.iter().filter(|(k, _)| !is_staging(k) && !k.starts_with(".copia")).all(|(k, v)| m2.get(k).map(|b| b3(b)) == Some(*v)),
+                    Some((_, Reply::Fingerprints(got))) => got.iter().filter(|(k, _)| !is_staging(k) && !is_hub_private(k)).all(|(k, v)| m2.get(k).map(|b| b3(b)) == Some(*v)),
                     _ => false,
                 }
             } else {
